@@ -301,13 +301,13 @@ class SmtPrinter(TreeWalker):
 
     @write_annotations
     def walk_str_to_int(self,formula, **kwargs):
-        self.write("( str.to.int " )
+        self.write("( str.to_int " )
         self.walk(formula.arg(0))
         self.write(")")
 
     @write_annotations
     def walk_int_to_str(self,formula, **kwargs):
-        self.write("( int.to.str " )
+        self.write("( str.from_int " )
         self.walk(formula.arg(0))
         self.write(")")
 
@@ -683,11 +683,11 @@ class SmtDagPrinter(DagWalker):
 
     @write_annotations_dag
     def walk_str_to_int(self,formula, args, **kwargs):
-        return "( str.to.int %s )" % args[0]
+        return "( str.to_int %s )" % args[0]
 
     @write_annotations_dag
     def walk_int_to_str(self,formula, args, **kwargs):
-        return "( int.to.str %s )" % args[0]
+        return "( str.from_int %s )" % args[0]
 
     @write_annotations_dag
     def walk_array_value(self, formula, args, **kwargs):
